@@ -627,6 +627,8 @@ class Interp(Folder):
 
     def ev_BinOp(self, e, env):
         a, b = self.ev(e.left, env), self.ev(e.right, env)
+        if isinstance(e.op, ast.BitOr) and isinstance(a, SymNS) and a.recv is None and (isinstance(b, (SymNS, TypeCtor, IClass, type)) or b is None):
+            return ("union", a, b)  # `pl.Series | pd.Series`: a union of (third-party) classes
         if isinstance(a, (Term, SymNS)) or isinstance(b, (Term, SymNS)):
             return Term("op:" + type(e.op).__name__, (a, b))
         if isinstance(e.op, ast.BitOr) and (isinstance(a, (TypeCtor, IClass, type)) or (isinstance(a, tuple) and a[:1] == ("union",)) or a is None):
@@ -659,6 +661,8 @@ class Interp(Folder):
             return any(self._isinstance(v, s, node) for s in spec)
         if isinstance(spec, TypeCtor):
             return isinstance(v, DT) and (spec.cls == "Dtype" or v.isinstance(spec.cls))
+        if spec is _type_fn:  # isinstance(x, type): is x a class object?
+            return isinstance(v, (TypeCtor, IClass, type))
         if isinstance(spec, SymNS):
             # a class of a third-party library: stub objects and python values are never instances; for a symbolic value the
             # answer is unknown
